@@ -403,6 +403,7 @@ func (p *polling) DoWrite(ctx *types.HttpContext, data types.BufferInterface, op
 		return
 	}
 
+	vhook.Yield("polling.DoWrite.compressing")
 	buf, err := p.compress(data, encoding)
 	if err != nil {
 		ctx.Cleanup()
